@@ -3,6 +3,7 @@ import re
 
 from . import common as C
 from . import typedattr as TA
+from . import fmtcontainer as FC
 from . import fmtgen as G
 
 NAMES = ["ignore", "forward", "owned", "ref", "ref_mut", "source", "backtrace"]
@@ -106,6 +107,9 @@ SYNONYMS = [
     ("TryFrom", "#[try_from(repr)] #[repr(align(8), u8)] enum E { A, B }", "#[try_from(repr)] #[repr(align(8))] #[repr(u8)] enum E { A, B }"),
     ("TryFrom", "#[try_from(repr)] #[repr(u16, align(2))] enum E { A = 300, B }", "#[repr(align(2))] #[try_from(repr)] #[repr(u16)] enum E { A = 300, B }"),
     ("TryFrom", "#[try_from(repr)] #[repr(i8)] #[repr(align(1))] #[repr(align(2))] enum E { A = -1, B }", "#[try_from(repr)] #[repr(align(1))] #[repr(align(2))] #[repr(i8)] enum E { A = -1, B }"),
+    ("Display", '#[display("x",)] struct S(u8);', '#[display("x")] struct S(u8);'), ("Debug", '#[debug("x",)] struct S(u8);', '#[debug("x")] struct S(u8);'),
+    ("Display", 'enum E { #[display("a",)] A, #[display("{}", 1,)] B }', 'enum E { #[display("a")] A, #[display("{}", 1)] B }'),
+    ("UpperHex", '#[upper_hex("{_0:X}",)] struct S(u8);', '#[upper_hex("{_0:X}")] struct S(u8);'),
     ("Display", '#[display("{a}")] #[display(rename_all = "snake_case")] enum E { A { a: u8 }, BeeCee }', '#[display(rename_all = "snake_case")] #[display("{a}")] enum E { A { a: u8 }, BeeCee }'),
 ]
 
@@ -199,7 +203,7 @@ def run(tier):
     extra, cov, corr_bad = [], {}, []
     try:
         inproc = C.cargo_build_inproc()
-        lean_ok, _ = C.lake_build(["Dm.Props.C17", "Dm.Props.C17Typed", "dmdriver"])
+        lean_ok, _ = C.lake_build(["Dm.Props.C17", "Dm.Props.C17Typed", "Dm.Props.C17Fmt", "dmdriver"])
         # A. legacy parser: model vs get_meta_info (hook) on generated attribute lists
         n = 6000 if tier == "quick" else 120000
         cases = [gen_attrs(rng, "deref") for _ in range(n)]
@@ -268,24 +272,40 @@ def run(tier):
             if ra.startswith("ok") and impls(ra) != impls(rb):
                 res.violation(f"typed-synonym:{kind}:{a[:80]}|{b[:80]}", f"#[derive({TA.DERIVE[g]})]: `{a}` and its {kind} rewrite `{b}` do not expand to the same impls ({rb[:120]})",
                               {"cmd": f"expand {TA.DERIVE[g]}", "a": a, "b": b, "rewrite": kind, "expansion_a": ra[:2000], "expansion_b": rb[:2000]})
-        corr_typed = [b for b in tbad]
+        # E. container attributes of the formatting derives: model `fc` -> normal-form spelling, expanded by the working
+        #    tree, must equal the expansion of the attributes as written; what the model rejects must be rejected
+        nf = 150 if tier == "quick" else 3000
+        fcases, fbad, fdist = FC.correspondence(inproc, C.drive_lean, rng, nf, impls) if lean_ok else ([], [], {})
+        for b in sorted(fbad, key=lambda b: len(b["source"]))[:6]:
+            d = FC.POSITIONS[b["position"]][0]
+            if "normal_form" in b:
+                res.violation(f"fmt-container-synonym:{b['source'][:120]}", f"#[derive({d})]: `{b['source']}` and the same attributes in normal form `{b['normal_form']}` do not expand to the same impl",
+                              {"cmd": f"expand {d}", "a": b["source"], "b": b["normal_form"], "expansion_a": b["impl"], "expansion_b": b["impl_normal_form"]})
+            elif b.get("model") == "err" and b.get("impl") == "ok":
+                res.violation(f"fmt-container-accepted:{b['source'][:120]}", f"#[derive({d})] {b['source']}: the unknown / duplicated / legacy attribute is accepted",
+                              {"cmd": f"expand {d}", "source": b["source"], "answer": b.get("raw", "")})
+            elif b.get("impl") == "panic":
+                res.violation(f"fmt-container-panic:{b['source'][:120]}", f"#[derive({d})] {b['source']}: answered by a panic instead of a diagnostic",
+                              {"cmd": f"expand {d}", "source": b["source"], "answer": b.get("raw", "")})
+        corr_typed = [b for b in tbad] + fbad
         extra = [("correspondence: legacy attribute parser model == get_meta_info (hook)", lean_ok and not corr_bad),
-                 ("correspondence: typed attribute parser model (ta) + C08/C14 models == working-tree verdict, diagnostic kind and expansion", lean_ok and not corr_typed)]
+                 ("correspondence: typed attribute parser model (ta) + C08/C14 models == working-tree verdict, diagnostic kind and expansion; fmt container attribute model (fc) normal forms == working-tree expansions", lean_ok and not corr_typed)]
         corr_bad = corr_bad + corr_typed
         cov = {
-            "evaluations": n + 2 * n_syn + len(CORRUPTIONS) + len(tcases) + 2 * len(tsyn),
+            "evaluations": n + 2 * n_syn + len(CORRUPTIONS) + len(tcases) + 2 * len(tsyn) + 2 * len(fcases),
             "distinct_nontrivial": len({c[1] + "|" + ",".join(c[0]) for c in cases}) + n_syn + len(CORRUPTIONS),
             "rule": "distinct (allow-list, attribute list) inputs of the legacy parser + synonym pairs + corrupted items expanded by the working-tree code",
-            "traces_validated_against_impl": n + len(tcases),
+            "traces_validated_against_impl": n + len(tcases) + len(fcases),
             "model_vs_impl_disagreements": len(corr_bad),
             "distribution": {"legacy_parser_cases": n, "legacy_outcomes": kinds, "synonym_pairs": n_syn, "corruptions": len(CORRUPTIONS), "corruption_outcomes": ckinds,
-                             "typed_attribute_cases": len(tcases), "typed_outcomes": tdist, "typed_synonym_rewrites": syn_kinds},
+                             "typed_attribute_cases": len(tcases), "typed_outcomes": tdist, "typed_synonym_rewrites": syn_kinds,
+                             "fmt_container_cases": len(fcases), "fmt_container_outcomes": fdist},
             "samples": [{"allowed": c[0], "attrs": c[1]} for c in cases[:3]],
         }
     except C.BuildError as e:
         res.violation("build", e.what, {"output": e.output[-3000:]}, found_input=False)
         cov = {"build_error": e.what}
-    failed = C.proof_obligations(res, "C17", ["C17", "C17Typed"], extra)
+    failed = C.proof_obligations(res, "C17", ["C17", "C17Typed", "C17Fmt"], extra)
     if failed and not res.violations:
         res.violation("obligations:" + ";".join(failed)[:200], "proof obligation / correspondence no longer checks: " + "; ".join(failed)[:400],
                       {"failed_obligations": failed, "correspondence_disagreements": corr_bad[:8]}, found_input=False)
@@ -297,7 +317,8 @@ def run(tier):
         "model of get_meta_info / parse_punctuated_nested_meta written by hand and compared with the real functions through the guarded hook; the `types(..)` arm is unreachable (no allow-list contains `types`) and not modelled",
         "model of the typed attribute parsers of utils.rs `mod attr` (Empty, Forward, Skip, Types, Either, Conversion, FieldConversion, ReprConversion, parse_attrs_with / merge_attrs), of into.rs (ConversionsAttribute, FieldAttribute, StructAttribute, check_legacy_syntax) and of from.rs's ConsiderLegacySyntax, written by hand over classified argument items (identifier / path type / other type / literal / nested list) and compared with the working tree on generated argument lists: verdict, legacy-or-other diagnostic, and expansion (through the C08 / C14 models)",
         "the classification of an argument by `syn` (what parses as a type / path / meta) is an assumption of that model, validated by the same comparison",
-        "fmt container attributes (bound, rename_all), ReprInt and Error's attributes are not modelled in Lean: their synonym / rejection behaviour is decided on the hand-written tables of spellings and single-step corruptions run against the working-tree expansions",
+        "model of the container attributes of the formatting derives (fmt/mod.rs ContainerAttributes / BoundsAttribute, display.rs ContainerAttributes / RenameAllAttribute, debug.rs's variant-level FmtAttribute and its no-format-on-enum rule) over attributes classified by what leads them (format literal, bound / bounds list, rename_all, legacy forms, anything else); tied to the working tree by expanding the model's answer in normal-form spelling and comparing with the expansion of the attributes as written",
+        "field-level attributes of Debug (skip / format), ReprInt and Error's attributes are not modelled in Lean: their synonym / rejection behaviour is decided on the hand-written tables of spellings and single-step corruptions run against the working-tree expansions",
         "syn's parsing of attribute token trees (commas, parentheses) is trusted",
     ]
     return res.finish()
